@@ -268,7 +268,17 @@ static WPlan plan_write(int kind, int seq, size_t maxmsg)
     case W_OVER: p.bytes = msg_sized(maxmsg + 4, (char)('0' + seq)); break;
     case W_ARRAY: p.bytes = msg_int("/w", 2000 + seq); break;
     case W_RAW: p.bytes = msg_int("/r", 3000 + seq); break;
-    case W_RAW_OVER: p.bytes = msg_sized(maxmsg + 4, (char)('A' + seq)); break;
+    case W_RAW_OVER:
+        p.bytes = msg_sized(maxmsg + 4, (char)('A' + seq));
+        // second and later positions of a program: an over-long BUNDLE whose elements end exactly at multiples of 12 behind the 16-byte header,
+        // so that for MaxMsg = 16 + 12k a well-formed shorter bundle ends exactly at MaxMsg (it must be dropped whole all the same)
+        if(seq >= 1 && maxmsg >= 16 && (maxmsg - 16) % 12 == 0) {
+            std::string b("#bundle\0", 8); b += std::string("\0\0\0\0\0\0\0\1", 8);
+            for(size_t k = 0; k <= (maxmsg - 16) / 12; ++k) { b += std::string("\0\0\0\10", 4); b += std::string("/x\0\0,\0\0\0", 8); b[b.size() - 6] = (char)('A' + seq); }
+            b += std::string("\0\0\0\0", 4);      // the zero size word that ends a bundle in memory (the length function walks up to it)
+            p.bytes = b;
+        }
+        break;
     case W_BLOB: { unsigned char bb[2] = {(unsigned char)(0xb0 + seq), 0x0b}; rtosc_arg_t a; a.b.len = 2; a.b.data = bb; p.bytes = mk_msg("/b", "b", &a); break; }   // the size word sits 8 bytes into the message
     }
     return p;
@@ -311,7 +321,9 @@ struct Exec {
 
 static Ctx g_ctx;
 
-static void rotate_to(Ctx &c, size_t off)
+// returns "" or what went wrong: the rotation is plain sequential use of the link (write one message, read it back), so an index that does
+// not stand where the lengths of the messages put it, or a message that does not come back, is a finding and not a harness problem
+static std::string rotate_to(Ctx &c, size_t off)
 {
     // sequentially write and read 8- and 12-byte messages until the read index stands at `off`; the sequence of steps is a
     // shortest path in the graph of offsets (ring sizes need not be multiples of 4)
@@ -323,12 +335,17 @@ static void rotate_to(Ctx &c, size_t off)
     for(size_t h = 0; h < q.size(); ++h) for(int st : {8, 12}) { size_t n = (q[h] + st) % size; if(prev[n] < 0) { prev[n] = (int)q[h]; step[n] = st; q.push_back(n); } }
     if(prev[off] < 0) { fprintf(stderr, "harness: offset %zu not reachable in a ring of %zu bytes\n", off, size); exit(3); }
     std::vector<int> plan; for(size_t p = off; p != from; p = (size_t)prev[p]) plan.push_back(step[p]);
+    size_t expect = from;
     for(size_t k = plan.size(); k-- > 0;) {
-        c.tl->raw_write(plan[k] == 8 ? m8.c_str() : m12.c_str());
-        if(!c.tl->hasNext()) { fprintf(stderr, "harness: rotation failed\n"); exit(3); }
-        c.tl->read();
+        const std::string &m = plan[k] == 8 ? m8 : m12;
+        c.tl->raw_write(m.c_str());
+        if(!c.tl->hasNext()) return "after " + std::to_string(plan.size() - k) + " sequential write/read pairs hasNext() is false behind a write of " + std::to_string(plan[k]) + " bytes";
+        const char *r = c.tl->read();
+        if(!r || memcmp(r, m.data(), m.size())) return "sequential write/read pair " + std::to_string(plan.size() - k) + " returned other bytes than were written";
+        expect = (expect + plan[k]) % size;
+        if((size_t)*c.v.read != expect || (size_t)*c.v.write != expect) return "after sequential write/read pairs of " + std::to_string(plan.size() - k) + " messages the indices stand at read=" + std::to_string(*c.v.read) + " write=" + std::to_string(*c.v.write) + ", the message lengths put them at " + std::to_string(expect);
     }
-    if((size_t)*c.v.read != off) { fprintf(stderr, "harness: rotation ended at %ld instead of %zu\n", *c.v.read, off); exit(3); }
+    return "";
 }
 
 static Exec run_instance(const Instance &in, const std::vector<uint8_t> &prefix)
@@ -336,7 +353,10 @@ static Exec run_instance(const Instance &in, const std::vector<uint8_t> &prefix)
     Ctx &c = g_ctx;
     G = &c;
     c.make(in.maxmsg, in.nmsgs);
-    rotate_to(c, in.offset);
+    {
+        std::string why = rotate_to(c, in.offset);
+        if(!why.empty()) { Exec x; x.failed = true; x.sig = std::string("sequential-use|write-read-pairs|ring-") + (c.v.size % 4 ? "size-not-multiple-of-4" : "size-multiple-of-4"); x.detail = "ring " + std::to_string(in.maxmsg) + "x" + std::to_string(in.nmsgs) + ": " + why; return x; }
+    }
     c.shadow.assign(c.v.size, Ctx::Sh{0, -1, {0, 0}});
     // message table: prefilled + planned writes
     c.mon.table.clear();
